@@ -59,18 +59,39 @@ static PyNode py;
 // ---------------------------------------------------------------- decode with the documented caller protocol
 // (examples/core/coding.c): whole buffer as one vector; on MissingBuffer insert
 // 8 bytes at `curr` and retry
-static int real_decode(int framing, const Bytes &frame, unsigned mis, Bytes &out, Log &log, std::string &why) {
+// With `cut` in 1..size-1 the frame arrives in two pieces: the decoder first sees
+// only the bytes before `cut` (and whatever space it was granted among them), then,
+// with the same state, the whole frame.  Returns 0 when the decoder reports an error
+// on the incomplete first piece (nothing is demanded of that here).
+static int real_decode(int framing, const Bytes &frame, unsigned mis, Bytes &out, Log &log, std::string &why, size_t cut = 0) {
 	data_decoder_t dec = decoder_for(framing);
 	decode_state info;
 	Bytes buf = frame;
 	size_t rounds = 0, cap = frame.size() + 16;
+	size_t hidden = (cut && cut < frame.size()) ? frame.size() - cut : 0;   // bytes at the end that have not arrived yet
 	while (true) {
-		Block blk(buf.size(), mis);
-		if (!buf.empty()) memcpy(blk.p, buf.data(), buf.size());
+		const size_t seen = buf.size() - hidden;
+		Block blk(seen, mis);
+		if (seen) memcpy(blk.p, buf.data(), seen);
 		struct iovec vec; vec.iov_base = blk.p; vec.iov_len = blk.n;
 		int code;
 		{ Sut s; code = dec(&info, &vec, 1); }
-		buf.assign(blk.p, blk.p + blk.n);
+		if (seen) memcpy(buf.data(), blk.p, seen);
+		if (hidden) {
+			log.ev("decode %s piece of %zu/%zu ret=%d curr=%zu pos=%zu len=%zu msg=%zd", ref::framing_name(framing), seen, buf.size(), code, info.curr, info.data.pos, info.data.len, info.data.msg);
+			if (code == E_MissingBuffer) {
+				if (++rounds > cap) { why = "decoder keeps asking for buffer"; return -100; }
+				if (info.curr > seen) { why = "decoder position beyond data"; return -101; }
+				buf.insert(buf.begin() + info.curr, 8, 0xAA);
+				info.curr += 8;
+				continue;
+			}
+			if (code < 0) return 0;
+			if (code > 0) { why = "decoder delivered a message before the frame's delimiter arrived"; return -104; }
+			if (info.curr > seen) { why = "decoder position beyond data"; return -101; }
+			hidden = 0;
+			continue;
+		}
 		if (code == E_MissingBuffer) {
 			if (++rounds > cap) { why = "decoder keeps asking for buffer"; return -100; }
 			if (info.curr > buf.size()) { why = "decoder position beyond data"; return -101; }
@@ -91,7 +112,7 @@ struct EncWorld : World {
 	const char *name() const override { return "enc"; }
 	const char *const *opnames() const override { return OPS; }
 	const char *const *faultnames() const override { return FAULTS; }
-	const char *const *shrinkable_cfg() const override { static const char *const k[] = {"win0", "mis", "dmis", "py", "inc", 0}; return k; }
+	const char *const *shrinkable_cfg() const override { static const char *const k[] = {"win0", "mis", "dmis", "py", "inc", "dcut", 0}; return k; }
 	const char *components_json() const override {
 		return "{\"real\":[\"mpt_encode_cobs\",\"mpt_encode_cobs_r\",\"mpt_encode_cobs_zpe\",\"mpt_encode_cobs_zpe_r\",\"mpt_encode_string\","
 		       "\"mpt_array_push + buffer detach growth\",\"mpt_decode_cobs\",\"mpt_decode_cobs_r\",\"mpt_decode_cobs_zpe\",\"mpt_decode_cobs_zpe_r\",\"mpt_decode_command\","
@@ -137,6 +158,8 @@ struct EncWorld : World {
 		Bytes m = gen_message(r, tier ? 1100 : 700, framing != ref::COMMAND);
 		p.blobs.push_back(m);
 		gen_ops(r, p, m.size());
+		// the finished frame reaches the decoder a second time in two pieces (0: not); drawn last so that everything before it is as it was
+		p.set("dcut", r.chance(1, 2) ? 0 : r.range(1, 65535));
 	}
 
 	// ---- enumeration: boundary corpus x framing x split point x window start x increment
@@ -171,7 +194,7 @@ struct EncWorld : World {
 		static const int incs[] = {1, 2, 64};
 		static const int wss[] = {0, 1, 5};
 		p.set("framing", framing); p.set("mode", 0); p.set("win0", wss[ws]); p.set("inc", incs[inc]);
-		p.set("mis", 0); p.set("dmis", (id + split) & 15); p.set("py", 0);
+		p.set("mis", 0); p.set("dmis", (id + split) & 15); p.set("py", 0); p.set("dcut", 1 + (id * 31 + split * 7 + inc) % 997);
 		p.blobs.push_back(m);
 		// split position: spread over the message with emphasis on the end region
 		size_t len = m.size();
@@ -190,6 +213,7 @@ struct EncWorld : World {
 		const Bytes &msg = p.blob(0);
 		const unsigned mis = (unsigned) p.get("mis") & 15, dmis = (unsigned) p.get("dmis") & 15;
 		size_t inc = (size_t) p.get("inc", 1); if (inc < 1) inc = 1; if (inc > 4096) inc = 4096;
+		dcut = (size_t) std::min<int64_t>(std::max<int64_t>(p.get("dcut"), 0), 65535); stats = &st;
 		Bytes msgx = msg;
 		if (framing == ref::COMMAND) for (auto &b : msgx) if (!b) b = 0x2e; // framing admits no zero
 		log.ev("enc framing=%s mode=%s len=%zu msg=%s", ref::framing_name(framing), mode ? "array" : "direct", msgx.size(), sim::hex(msgx, 24).c_str());
@@ -235,19 +259,27 @@ struct EncWorld : World {
 		if (ledger_live()) fail("leak", "%zu block(s) still allocated after the run: %s", ledger_live(), ledger_describe().c_str());
 	}
 
+	size_t dcut = 0; Stats *stats = 0;
 	void check_roundtrip(int framing, const Bytes &msg, const Bytes &frame, unsigned dmis, const char *who, Log &log) {
+		check_roundtrip_cut(framing, msg, frame, dmis, who, log, 0);
+		if (dcut && frame.size() >= 2) check_roundtrip_cut(framing, msg, frame, dmis, who, log, 1 + (dcut - 1) % (frame.size() - 1));
+	}
+	void check_roundtrip_cut(int framing, const Bytes &msg, const Bytes &frame, unsigned dmis, const char *who, Log &log, size_t cut) {
 		Bytes want;
 		if (framing == ref::COMMAND) { want.push_back(0x04); want.push_back(' '); }
 		want.insert(want.end(), msg.begin(), msg.end());
 		Bytes got; std::string why;
-		int rc = real_decode(framing, frame, dmis, got, log, why);
+		int rc = real_decode(framing, frame, dmis, got, log, why, cut);
+		if (cut) { if (!rc) { stats->hit("probe:decoder_error_on_first_piece"); return; } stats->hit("probe:frame_decoded_in_two_pieces"); }
 		if (rc != 1 || got != want) {
 			Bytes refm; int v = ref::decode(framing, frame, refm);
 			bool frame_ok = v == ref::WELL && refm == msg;
 			std::string sig = std::string(strcmp(who, "python-client") ? "roundtrip" : "py-roundtrip");
+			std::string how = cut ? " handed to the decoder in two pieces, the first of " + std::to_string(cut) + " bytes," : "";
+			if (cut) sig += "-pieces";
 			size_t d = 0; while (d < got.size() && d < want.size() && got[d] == want[d]) ++d;
-			fail(sig.c_str(), "%s %s: message of %zu bytes came back as %zu bytes (first difference at %zu)%s%s; reference decoder says the frame %s",
-			     who, ref::framing_name(framing), want.size(), got.size(), d, rc != 1 ? ": " : "", rc != 1 ? why.c_str() : "",
+			fail(sig.c_str(), "%s %s: message of %zu bytes came back as %zu bytes (first difference at %zu)%s%s; reference decoder says the frame%s %s",
+			     who, ref::framing_name(framing), want.size(), got.size(), d, rc != 1 ? ": " : "", rc != 1 ? why.c_str() : "", how.c_str(),
 			     frame_ok ? "is a correct encoding (decoder at fault)" : "does not encode the message (encoder at fault)");
 		}
 	}
